@@ -97,15 +97,79 @@ package ion
 //@ model (*bufio.Reader).Discard vcModelDiscard
 //@ model (*bufio.Reader).Peek vcModelPeek
 //@ model io.ReadFull vcModelReadFull
+//@ model io.CopyN vcModelCopyN
+//@ model (*bytes.Buffer).Bytes vcModelBufferBytes
 
 // ---------------------------------------------------------------------------
 // bitstream.go
+
+// The VarUInt/VarInt specification functions are opaque: only the proofs of the functions
+// that implement them (`reveal`) see their definitions; every caller reasons from the
+// callee's contract alone.
+//@ opaque specVarUintEndAt specVarUintValue specVarUintStop specVarIntValue specVarIntSign
+
+// Leaf I/O helpers. They carry contracts of their own (so a change inside them fails a
+// named obligation) and are `inline`: callers use their bodies, not the contracts.
+
+//@ func (*bitstream).read
+//@ inline
+//@ split returns
+//@ requires bsStream(b)
+//@ modifies b.pos, vcStreamOf(b.in).cur
+//@ ensures[C06,C19] bsStream(b) && b.pos == old(b.pos)+1
+//@ ensures[C03,C19] old(bsAvail(b)) > 0 ==> err == nil && result == int(old(bsByte(b, 0))) && bsS(b).cur == old(bsS(b).cur)+1
+//@ ensures[C07,C19] old(bsAvail(b)) == 0 && old(bsS(b).end) == io.EOF ==> err == nil && result == -1 && bsS(b).cur == old(bsS(b).cur)
+//@ ensures[C19] old(bsAvail(b)) == 0 && old(bsS(b).end) != io.EOF ==> err != nil
+//@ safe[C06]
+
+//@ func (*bitstream).read1
+//@ inline
+//@ split returns
+//@ requires bsStream(b)
+//@ modifies b.pos, vcStreamOf(b.in).cur
+//@ ensures[C06,C19] bsStream(b) && b.pos == old(b.pos)+1
+//@ ensures[C03,C19] old(bsAvail(b)) > 0 ==> err == nil && result == int(old(bsByte(b, 0))) && bsS(b).cur == old(bsS(b).cur)+1
+//@ ensures[C07,C19] old(bsAvail(b)) == 0 ==> err != nil
+//@ safe[C06]
+
+//@ func (*bitstream).skip
+//@ inline
+//@ split returns
+//@ requires bsStream(b)
+//@ modifies b.pos, vcStreamOf(b.in).cur
+//@ ensures[C06,C19] bsStream(b) && b.pos-old(b.pos) <= n
+//@ ensures[C03,C08,C19] n < 1<<63 && uint64(old(bsAvail(b))) >= n ==> err == nil && b.pos == old(b.pos)+n && bsS(b).cur == old(bsS(b).cur)+int(n)
+//@ ensures[C07,C19] n >= 1<<63 || uint64(old(bsAvail(b))) < n ==> err != nil
+//@ safe[C06]
+
+//@ func (*bitstream).readN
+//@ inline
+//@ split returns
+//@ requires bsStream(b)
+//@ modifies b.pos, vcStreamOf(b.in).cur
+//@ ensures[C06,C19] bsStream(b) && b.pos-old(b.pos) <= n
+//@ ensures[C03,C08,C19] n < 1<<63 && uint64(old(bsAvail(b))) >= n ==> err == nil && b.pos == old(b.pos)+n && bsS(b).cur == old(bsS(b).cur)+int(n) && uint64(len(result)) == n
+//@ ensures[C03,C13] forall k int :: n < 1<<63 && uint64(old(bsAvail(b))) >= n && 0 <= k && uint64(k) < n ==> result[k] == old(bsByte(b, k))
+//@ ensures[C03] uint64(old(bsAvail(b))) >= n && n > 0 && n < 1<<63 ==> vcFresh(result)
+//@ ensures[C07,C19] n >= 1<<63 || uint64(old(bsAvail(b))) < n ==> err != nil && result == nil
+//@ safe[C06]
+//@ allocbound[C06] 1<<16
+
+//@ func (*bitstream).peekAtOffset
+//@ inline
+//@ split returns
+//@ requires bsStream(b) && 0 <= offset && offset < 4096
+//@ modifies nothing
+//@ ensures[C03] old(bsAvail(b)) > offset ==> err == nil && result == old(bsByte(b, offset))
+//@ ensures[C07,C19] old(bsAvail(b)) <= offset ==> err != nil
+//@ safe[C06]
 
 //@ func parseTag
 //@ ensures[C03] result0 == specBitcode((c>>4)&0x0F) && result1 == uint64(c&0x0F)
 //@ safe[C03,C06]
 
 //@ func (*bitstream).readVarUintLen
+//@ reveal specVarUintEndAt specVarUintValue specVarUintStop specVarIntValue specVarIntSign
 //@ unroll loop0 10
 //@ split returns
 //@ requires bsStream(b) && bsPos(b)
@@ -121,4 +185,134 @@ package ion
 //@    err == nil && result1 == specVarUintEnd(old(vcStreamOf(b.in)))
 //@ ensures[C07] specVarUintEnd(old(vcStreamOf(b.in))) == 0 || specVarUintEnd(old(vcStreamOf(b.in))) > max ==> err != nil
 //@ ensures[C07,C19] err != nil ==> result0 == 0 && result1 == 0
+//@ safe[C06]
+
+//@ func (*bitstream).skipVarUintLen
+//@ reveal specVarUintEndAt specVarUintValue specVarUintStop specVarIntValue specVarIntSign
+//@ unroll loop0 10
+//@ split returns
+//@ requires bsStream(b) && bsPos(b)
+//@ requires bsRoom(b, max) || bsRoom(b, 10)
+//@ modifies b.pos, vcStreamOf(b.in).cur
+//@ ensures[C03,C06,C08] bsStream(b) && bsPos(b)
+//@ ensures[C03,C08] err == nil ==> 1 <= result && result <= 10 && result <= max
+//@ ensures[C03,C08] err == nil ==> b.pos == old(b.pos)+result && bsS(b).cur == old(bsS(b).cur)+int(result)
+//@ ensures[C03,C08] specVarUintEnd(old(bsS(b))) != 0 && specVarUintEnd(old(bsS(b))) <= max ==> err == nil && result == specVarUintEnd(old(bsS(b)))
+//@ ensures[C07] specVarUintEnd(old(bsS(b))) == 0 || specVarUintEnd(old(bsS(b))) > max ==> err != nil
+//@ safe[C06]
+
+//@ func (*bitstream).readVarIntLen
+//@ reveal specVarUintEndAt specVarUintValue specVarUintStop specVarIntValue specVarIntSign
+//@ unroll loop0 10
+//@ split returns
+//@ requires bsStream(b) && bsPos(b)
+//@ requires bsRoom(b, max) || bsRoom(b, 10)
+//@ modifies b.pos, vcStreamOf(b.in).cur
+//@ ensures[C03,C06,C08] bsStream(b) && bsPos(b)
+//@ ensures[C03,C13] err == nil ==> 1 <= result2 && result2 <= 10 && result2 <= max
+//@ ensures[C03,C08] err == nil ==> b.pos == old(b.pos)+result2 && bsS(b).cur == old(bsS(b).cur)+int(result2)
+//@ ensures[C03,C13] err == nil ==> specVarUintStop(bsS(b).data, old(bsS(b).cur), result2)
+//@ ensures[C03,C13,C15] err == nil ==> result0 == specVarIntValue(bsS(b).data, old(bsS(b).cur), result2)
+//@ ensures[C03,C15] err == nil ==> result1 == specVarIntSign(bsS(b).data, old(bsS(b).cur))
+//@ ensures[C03] specVarUintEnd(old(bsS(b))) != 0 && specVarUintEnd(old(bsS(b))) <= max ==> err == nil && result2 == specVarUintEnd(old(bsS(b)))
+//@ ensures[C07] specVarUintEnd(old(bsS(b))) == 0 || specVarUintEnd(old(bsS(b))) > max ==> err != nil
+//@ safe[C06]
+
+// ---------------------------------------------------------------------------
+// bitstream: cursor operations. bsInv is the representation invariant; every operation
+// that returns without error re-establishes it.
+
+//@ func (*bitstream).SkipValue
+//@ split returns
+//@ requires bsLocal(b)
+//@ modifies b.pos, b.state, b.code, b.null, b.len, vcStreamOf(b.in).cur
+//@ ensures[C06] bsStream(b)
+//@ ensures[C03,C06,C08] err == nil ==> bsLocal(b)
+//@ ensures[C08] old(b.state) == bssBeforeValue || old(b.state) == bssBeforeFieldID ==>
+//@    err == nil && b.pos == old(b.pos) && b.state == old(b.state) && b.code == old(b.code) && bsS(b).cur == old(bsS(b).cur)
+//@ ensures[C03,C08] old(b.state) == bssOnValue && old(b.len) < 1<<63 && uint64(old(bsAvail(b))) >= old(b.len) ==>
+//@    err == nil && b.pos == old(b.pos)+old(b.len) && bsS(b).cur == old(bsS(b).cur)+int(old(b.len)) && b.state == bsAfter(b) && bsCleared(b)
+//@ ensures[C07,C19] old(b.state) == bssOnValue && (old(b.len) >= 1<<63 || uint64(old(bsAvail(b))) < old(b.len)) ==> err != nil
+//@ ensures[C03,C08] old(b.state) == bssOnFieldID && specVarUintEnd(old(bsS(b))) != 0 && specVarUintEnd(old(bsS(b))) <= old(bsRem(b)) ==>
+//@    err == nil && b.pos == old(b.pos)+specVarUintEnd(old(bsS(b))) && b.state == bssBeforeValue && bsCleared(b)
+//@ ensures[C07] old(b.state) == bssOnFieldID && (specVarUintEnd(old(bsS(b))) == 0 || specVarUintEnd(old(bsS(b))) > old(bsRem(b))) ==> err != nil
+//@ safe[C06]
+
+//@ func (*bitstream).StepIn
+//@ split returns
+//@ requires bsInv(b) && b.state == bssOnValue && !b.null
+//@ requires b.code == bitcodeStruct || b.code == bitcodeList || b.code == bitcodeSexp
+//@ modifies b.state, b.code, b.null, b.len, b.stack.arr
+//@ ensures[C03,C06,C08] bsStream(b) && bsPos(b) && b.state <= bssOnFieldID && bsCleared(b)
+//@ ensures[C03,C06,C08] bsNested(b)
+//@ ensures[C03,C08] len(b.stack.arr) == old(len(b.stack.arr))+1 && bsTopEnd(b) == old(b.pos)+old(b.len) && b.pos == old(b.pos)
+//@ ensures[C03,C08] b.stack.arr[len(b.stack.arr)-1].code == old(b.code) && bsCleared(b)
+//@ ensures[C03,C08] old(b.code) == bitcodeStruct ==> b.state == bssBeforeFieldID
+//@ ensures[C03,C08] old(b.code) != bitcodeStruct ==> b.state == bssBeforeValue
+//@ ensures[C08] forall j int :: 0 <= j && j < old(len(b.stack.arr)) ==> b.stack.arr[j] == old(b.stack.arr[j])
+//@ safe[C06]
+
+//@ func (*bitstream).StepOut
+//@ split returns
+//@ requires bsInv(b) && len(b.stack.arr) > 0
+//@ modifies b.pos, b.state, b.code, b.null, b.len, b.stack.arr, vcStreamOf(b.in).cur
+//@ ensures[C06] bsStream(b)
+//@ ensures[C03,C06,C08] err == nil ==> bsInv(b)
+//@ ensures[C03,C08] len(b.stack.arr) == old(len(b.stack.arr))-1
+//@ ensures[C08] forall j int :: 0 <= j && j < len(b.stack.arr) ==> b.stack.arr[j] == old(b.stack.arr[j])
+//@ ensures[C03,C08] old(bsRem(b)) < 1<<63 && uint64(old(bsAvail(b))) >= old(bsRem(b)) ==>
+//@    err == nil && b.pos == old(bsTopEnd(b)) && bsS(b).cur == old(bsS(b).cur)+int(old(bsRem(b))) && b.state == bsAfter(b) && bsCleared(b)
+//@ ensures[C07,C19] old(bsRem(b)) >= 1<<63 || uint64(old(bsAvail(b))) < old(bsRem(b)) ==> err != nil
+//@ safe[C06]
+
+// Next in the state "before a value" (the other states first skip the current value or
+// report the field id: see SkipValue). t is the descriptor octet at the cursor.
+
+//@ func (*bitstream).Next
+//@ split returns
+//@ requires bsLocal(b)
+//@ modifies b.pos, b.state, b.code, b.null, b.len, vcStreamOf(b.in).cur
+//@ ensures[C06] bsStream(b)
+//@ ensures[C03,C06,C08] err == nil ==> bsLocal(b)
+//@ ensures[C03,C08] old(b.state) == bssBeforeValue && !old(bsTop(b)) && old(b.pos) == old(bsTopEnd(b)) ==>
+//@    err == nil && b.code == bitcodeEOF && b.pos == old(b.pos) && b.state == bssBeforeValue && bsS(b).cur == old(bsS(b).cur)
+//@ ensures[C03,C08] old(b.state) == bssBeforeFieldID && old(b.pos) == old(bsTopEnd(b)) ==>
+//@    err == nil && b.code == bitcodeEOF && b.pos == old(b.pos) && b.state == bssBeforeFieldID
+//@ ensures[C03,C08] old(b.state) == bssBeforeFieldID && old(b.pos) != old(bsTopEnd(b)) ==>
+//@    err == nil && b.code == bitcodeFieldID && b.pos == old(b.pos) && b.state == bssOnFieldID
+//@ ensures[C03] old(b.state) == bssBeforeValue && old(bsTop(b)) && old(bsAvail(b)) == 0 && old(bsS(b).end) == io.EOF ==>
+//@    err == nil && b.code == bitcodeEOF
+//@ ensures[C07] old(b.state) == bssBeforeValue && !old(bsTop(b)) && old(b.pos) != old(bsTopEnd(b)) && old(bsAvail(b)) == 0 ==> err != nil
+//@ ensures[C19] old(b.state) == bssBeforeValue && old(bsAvail(b)) == 0 && old(bsS(b).end) != io.EOF && (old(bsTop(b)) || old(b.pos) != old(bsTopEnd(b))) ==> err != nil
+//@ ensures[C07] old(b.state) == bssBeforeValue && (old(bsTop(b)) || old(b.pos) != old(bsTopEnd(b))) && old(bsAvail(b)) > 0 &&
+//@    specTagIllegal(old(bsByte(b, 0)), old(bsTop(b))) ==> err != nil
+//@ ensures[C03,C08] old(b.state) == bssBeforeValue && (old(bsTop(b)) || old(b.pos) != old(bsTopEnd(b))) && old(bsAvail(b)) > 0 &&
+//@    !specTagIllegal(old(bsByte(b, 0)), old(bsTop(b))) && specTagNull(old(bsByte(b, 0))) ==>
+//@    err == nil && b.code == specTagCode(old(bsByte(b, 0))) && b.null && b.len == 0 && b.state == bssOnValue &&
+//@    b.pos == old(b.pos)+1 && bsS(b).cur == old(bsS(b).cur)+1
+//@ ensures[C03,C08] old(b.state) == bssBeforeValue && (old(bsTop(b)) || old(b.pos) != old(bsTopEnd(b))) && old(bsAvail(b)) > 0 &&
+//@    !specTagIllegal(old(bsByte(b, 0)), old(bsTop(b))) && !specTagNull(old(bsByte(b, 0))) && !specTagVarLen(old(bsByte(b, 0))) &&
+//@    (old(bsByte(b, 0)) == 0xE0 || specTagInlineLen(old(bsByte(b, 0))) <= old(bsRem(b))-1) ==>
+//@    err == nil && b.code == specTagCode(old(bsByte(b, 0))) && !b.null && b.len == specTagInlineLen(old(bsByte(b, 0))) &&
+//@    b.state == bssOnValue && b.pos == old(b.pos)+1 && bsS(b).cur == old(bsS(b).cur)+1
+//@ ensures[C07] old(b.state) == bssBeforeValue && (old(bsTop(b)) || old(b.pos) != old(bsTopEnd(b))) && old(bsAvail(b)) > 0 &&
+//@    !specTagIllegal(old(bsByte(b, 0)), old(bsTop(b))) && !specTagNull(old(bsByte(b, 0))) && !specTagVarLen(old(bsByte(b, 0))) &&
+//@    old(bsByte(b, 0)) != 0xE0 && specTagInlineLen(old(bsByte(b, 0))) > old(bsRem(b))-1 ==> err != nil
+//@ ensures[C03,C08] old(b.state) == bssBeforeValue && (old(bsTop(b)) || old(b.pos) != old(bsTopEnd(b))) && old(bsAvail(b)) > 0 &&
+//@    !specTagIllegal(old(bsByte(b, 0)), old(bsTop(b))) && specTagVarLen(old(bsByte(b, 0))) && err == nil ==>
+//@    specVarUintEndAt(bsS(b).data, old(bsS(b).cur)+1) != 0 && specVarUintEndAt(bsS(b).data, old(bsS(b).cur)+1) <= old(bsRem(b))-1 && b.len <= old(bsRem(b))-1-specVarUintEndAt(bsS(b).data, old(bsS(b).cur)+1)
+//@ ensures[C03,C08] old(b.state) == bssBeforeValue && (old(bsTop(b)) || old(b.pos) != old(bsTopEnd(b))) && old(bsAvail(b)) > 0 &&
+//@    !specTagIllegal(old(bsByte(b, 0)), old(bsTop(b))) && specTagVarLen(old(bsByte(b, 0))) && err == nil ==>
+//@    b.len == specVarUintValue(bsS(b).data, old(bsS(b).cur)+1, specVarUintEndAt(bsS(b).data, old(bsS(b).cur)+1)) && (old(bsByte(b, 0)) != 0xD1 || b.len != 0)
+//@ ensures[C03,C08] old(b.state) == bssBeforeValue && (old(bsTop(b)) || old(b.pos) != old(bsTopEnd(b))) && old(bsAvail(b)) > 0 &&
+//@    !specTagIllegal(old(bsByte(b, 0)), old(bsTop(b))) && specTagVarLen(old(bsByte(b, 0))) && err == nil ==>
+//@    b.code == specTagCode(old(bsByte(b, 0))) && !b.null && b.state == bssOnValue
+//@ ensures[C03,C08] old(b.state) == bssBeforeValue && (old(bsTop(b)) || old(b.pos) != old(bsTopEnd(b))) && old(bsAvail(b)) > 0 &&
+//@    !specTagIllegal(old(bsByte(b, 0)), old(bsTop(b))) && specTagVarLen(old(bsByte(b, 0))) && err == nil ==>
+//@    b.pos == old(b.pos)+1+specVarUintEndAt(bsS(b).data, old(bsS(b).cur)+1) && bsS(b).cur == old(bsS(b).cur)+1+int(specVarUintEndAt(bsS(b).data, old(bsS(b).cur)+1))
+//@ ensures[C03] old(b.state) == bssBeforeValue && (old(bsTop(b)) || old(b.pos) != old(bsTopEnd(b))) && old(bsAvail(b)) > 0 &&
+//@    !specTagIllegal(old(bsByte(b, 0)), old(bsTop(b))) && specTagVarLen(old(bsByte(b, 0))) &&
+//@    specVarUintEndAt(bsS(b).data, old(bsS(b).cur)+1) != 0 && specVarUintEndAt(bsS(b).data, old(bsS(b).cur)+1) <= old(bsRem(b))-1 &&
+//@    specVarUintValue(bsS(b).data, old(bsS(b).cur)+1, specVarUintEndAt(bsS(b).data, old(bsS(b).cur)+1)) <= old(bsRem(b))-1-specVarUintEndAt(bsS(b).data, old(bsS(b).cur)+1) &&
+//@    (old(bsByte(b, 0)) != 0xD1 || specVarUintValue(bsS(b).data, old(bsS(b).cur)+1, specVarUintEndAt(bsS(b).data, old(bsS(b).cur)+1)) != 0) ==> err == nil
 //@ safe[C06]
